@@ -37,7 +37,9 @@ WALL_CAP = {"quick": 150, "thorough": 2400}
 SRCS = ["/a/x.py", "/a/X.PY", "/a/b/y.txt", "/a", "x.py", b"/a/x.py", "/A/b/x.py"]
 DESTS = ["", "/a/z.py", "/a/b/Z.TXT", b"/q/w.md", "/a"]
 PATS = [None, [], ["*"], ["*.py"], ["*.PY"], ["/a/*"], ["**"], ["*.txt"], ["*.py", "*.txt"], ["/a/b/*", "*.md"], ["x.py"], ["*/b/*"]]
-REGS = [None, [], [r".*"], [r".*\.py$"], [r".*\.PY$"], [r"/a/[^/]*$"], [r""], [r".*\.txt$"], [r".*\.py$", r".*\.md$"], [r"^$"], r".*\.py$", [r"/a/b/"]]
+REGS = [None, [], [r".*"], [r".*\.py$"], [r".*\.PY$"], [r"/a/[^/]*$"], [r""], [r".*\.txt$"], [r".*\.py$", r".*\.md$"], [r"^$"], r".*\.py$", [r"/a/b/"],
+        # groups and numbered back-references in a regex that is not the first of its list
+        [r"(.*)\.md$", r"(/)a\1x\.py$"], [r"(/q)/w\.(md)$", r"(?i)(/)a\1b\1y\.(t)x\2$"]]
 
 
 def event_classes():
@@ -293,6 +295,58 @@ def run_rebind(b: Batch):
             b.nontrivial(repr(("rebind", base.__name__, order)))
 
 
+def run_observer_twins(b: Batch):
+    """Two identically configured handler instances on one watch of one observer: both are called (handlers are kept in a
+    set: they must stay distinct objects), and removing one leaves the other."""
+    from watchdog import events as ev
+    from watchdog.observers.api import BaseObserver
+
+    from wdverif import apirig
+
+    for base in (ev.FileSystemEventHandler, ev.PatternMatchingEventHandler, ev.RegexMatchingEventHandler, ev.LoggingEventHandler):
+        log = []
+
+        class Rec(base):
+            def on_any_event(self, event):
+                log.append((self.tag, "on_any_event", id(event)))
+
+            def on_modified(self, event):
+                log.append((self.tag, "on_modified", id(event)))
+
+        hs = [Rec(), Rec(), Rec()]
+        for i, h in enumerate(hs):
+            h.tag = i
+        obs = BaseObserver(apirig.make_scripted_emitter(apirig.FaultPlan(()), []), timeout=0.02)
+        watch = None
+        for h in hs:
+            watch = obs.schedule(h, "/twins", recursive=False)
+        obs.start()
+        try:
+            e1 = ev.FileModifiedEvent("/twins/a.py")
+            obs.event_queue.put((e1, watch))
+            ok = apirig.drain(obs, 10)
+            obs.remove_handler_for_watch(hs[1], watch)
+            e2 = ev.FileModifiedEvent("/twins/b.py")
+            obs.event_queue.put((e2, watch))
+            ok = apirig.drain(obs, 10) and ok
+        finally:
+            obs.stop()
+            obs.join(10)
+        b.case()
+        b.count("observer_twin_cases")
+        if not ok:
+            b.inconc("C15 twins: dispatcher did not drain")
+            continue
+        got1 = sorted((t, n) for t, n, i in log if i == id(e1))
+        got2 = sorted((t, n) for t, n, i in log if i == id(e2))
+        want1 = sorted((t, n) for t in (0, 1, 2) for n in ("on_any_event", "on_modified"))
+        want2 = sorted((t, n) for t in (0, 2) for n in ("on_any_event", "on_modified"))
+        if got1 != want1 or got2 != want2:
+            b.violation("base-mismatch", f"{base.__name__}: three identically configured handlers on one watch: first event reached {got1}, after removing one of them the second reached {got2}",
+                        witness={"base": base.__name__})
+        b.nontrivial(repr(("twins", base.__name__)))
+
+
 def run_filters(b: Batch, stride, offset):
     from watchdog.utils.patterns import filter_paths, match_any_paths
 
@@ -341,7 +395,11 @@ def run_concurrent(b: Batch, seed, j, n):
 
     r = rng_for(seed, "c15c", j)
     ins = Instr(seed=seed + j)
-    ins.watch(PatternMatchingEventHandler.dispatch, RegexMatchingEventHandler.dispatch, pm.match_any_paths, pm.filter_paths, pm._match_path)
+    import types
+
+    # every function the patterns module defines (helpers a refactor may add are preempted too)
+    own = [f for f in vars(pm).values() if isinstance(f, types.FunctionType) and f.__module__ == pm.__name__]
+    ins.watch(PatternMatchingEventHandler.dispatch, RegexMatchingEventHandler.dispatch, *own)
     ins.set_noise(0.3, 0.0002)
     sys.setswitchinterval(1e-5)
     classes = event_classes()
@@ -357,16 +415,26 @@ def run_concurrent(b: Batch, seed, j, n):
             Rec = recording(base)
             h = Rec(regexes=incl, ignore_regexes=excl, case_sensitive=cs, ignore_directories=ign) if regex else \
                 Rec(patterns=incl, ignore_patterns=excl, case_sensitive=cs, ignore_directories=ign)
+            cfgs = [(h, incl, excl, cs, ign)] * 2
+            if it % 2 == 1:
+                # two handlers with different rules, one per thread (two watches of one process): no state may leak between them
+                incl2, excl2 = r.choice(lists), r.choice(lists)
+                cs2 = cs if r.random() < 0.7 else not cs
+                h2 = Rec(regexes=incl2, ignore_regexes=excl2, case_sensitive=cs2, ignore_directories=ign) if regex else \
+                    Rec(patterns=incl2, ignore_patterns=excl2, case_sensitive=cs2, ignore_directories=ign)
+                cfgs = [cfgs[0], (h2, incl2, excl2, cs2, ign)]
+                b.count("concurrent_two_handler_trials")
             events = [[mk_event(r.choice(classes), r.choice(SRCS), r.choice(DESTS)) for _ in range(25)] for _ in range(2)]
             bar = threading.Barrier(2)
             sub = [Batch(), Batch()]
 
             def work(k):
+                hk, incl_k, excl_k, cs_k, ign_k = cfgs[k]
                 bar.wait()
                 for e in events[k]:
-                    want = (ref_regex if regex else ref_pattern)(e, incl, excl, cs, ign)
-                    case = (type(e).__name__, e.src_path, e.dest_path, incl, excl, cs, ign, "concurrent")
-                    judge_dispatch(sub[k], h, e, want, "regex" if regex else "pattern", case, counter="concurrent_verdicts")
+                    want = (ref_regex if regex else ref_pattern)(e, incl_k, excl_k, cs_k, ign_k)
+                    case = (type(e).__name__, e.src_path, e.dest_path, incl_k, excl_k, cs_k, ign_k, "concurrent")
+                    judge_dispatch(sub[k], hk, e, want, "regex" if regex else "pattern", case, counter="concurrent_verdicts")
 
             ts = [threading.Thread(target=work, args=(k,), name=f"wdv-disp{k}", daemon=True) for k in range(2)]
             for t in ts:
@@ -411,6 +479,7 @@ def run_batch(spec):
     if k == "base":
         run_base(b)
         run_rebind(b)
+        run_observer_twins(b)
     elif k == "pattern":
         run_pattern_product(b, spec["stride"], spec["offset"], regex=False)
     elif k == "regex":
